@@ -1285,6 +1285,8 @@ def r_step(P, L, s, d):
         small = re.fullmatch(r"\d+", d["b"]) and int(d["b"]) <= 255 or re.fullmatch(r"\(\(.* as u8\) as usize\)", d["b"])
         if lty == "usize" and small and s.body.name in ("parser::HeaderParser::parse", "parser::Parser::get", "parser::stmt::<impl parser::Parser>::parse_data_row"):
             return (True, "step rule: usize counter += (constant or u8) once per consumed token; cannot wrap below 2^56 tokens (assumption)")
+        if lty == "usize" and s.body.name == "parser::Parser::get" and re.fullmatch(r"ExactSizeIterator::len\(some!\(Iterator::next\(self\.iter\)\)\.span\)", d["b"]):
+            return (True, "step rule: usize counter += byte length of the token just consumed; token spans are disjoint sub-ranges of the input, so the sum is <= input length <= isize::MAX")
     return None
 
 
@@ -1391,12 +1393,22 @@ def r_framedmap(P, L, s, d):
 
 def r_refcell(P, L, s, d):
     if d["kind"] == "call" and d["construct"] == "RefCell::borrow":
-        # the borrow guard must be used for exactly one non-reentrant call and all borrowers of rng are this function
-        w = set(x[0].name for x in P.field_readers("eval_context::EvalContext", "rng"))
+        # a RefCell borrow panics only if another borrow of the same cell is live: all borrowers of `rng`
+        # are known functions, and nothing callable while this function runs (call-graph closure, callbacks
+        # into local trait impls included) touches `rng` again
+        if not d["args"] or d["args"][0] != "self.rng":
+            return (False, "borrow of `%s` (only EvalContext.rng is covered)" % (d["args"][0] if d["args"] else "?"))
+        readers = set(x[0].name for x in P.field_readers("eval_context::EvalContext", "rng"))
         allowed = {"eval_context::EvalContext::with_seed", "eval_context::EvalContext::reset_random_seed", "eval_context::EvalContext::random"}
-        calls = [callee_name(t)[0] for bb, t in s.body.calls()]
-        inner = [c for c in calls if not c.startswith("std::cell::") and "DerefMut" not in c and "Drop" not in c]
-        return (w <= allowed and inner == ["rand::Rng::gen_range"], "rng is borrowed only here, for one gen_range call that cannot re-enter the context")
+        if not readers <= allowed:
+            return (False, "rng is touched in %s" % sorted(readers - allowed))
+        cg = P.cg
+        below = set()
+        for c in cg.edges.get(s.body.name, ()):
+            below |= cg.closure([c])
+        again = sorted(below & (readers | {s.body.name}))
+        nb = sum(1 for bb, t in s.body.calls() if callee_name(t)[0] in ("std::cell::RefCell::borrow_mut", "std::cell::RefCell::borrow"))
+        return (not again and nb == 1, "rng is borrowed once in this function and nothing it calls can reach another borrow of rng" if not again and nb == 1 else "while rng is borrowed, %s may run (%d borrow calls in this function)" % (again, nb))
     return None
 
 
@@ -1540,7 +1552,19 @@ def r_driver(P, L, s, d):
     return None
 
 
-RULES = [r_driver, r_sigidx, r_rowwidth, r_outidx, r_fold, r_default_unwrap, r_generator_unreachable, r_stk, r_guard_lt, r_position_same,
+def r_nonzero_divisor(P, L, s, d):
+    """x.wrapping_div(y) / wrapping_rem / ..: panics only for y == 0; discharged by a dominating y != 0 on the same term."""
+    if d["kind"] == "call" and d["construct"] == "integer division" and len(d.get("args", [])) == 2:
+        y = d["args"][1]
+        g = guards_at(P, s.body, s.bb)
+        for x in g:
+            if x[0] == "Ne" and ((x[1] == y and x[2] == "0") or (x[2] == y and x[1] == "0")):
+                return (True, "dominated by %s != 0" % y)
+        return (False, "the divisor `%s` is not tested against zero on every path to the division" % y)
+    return None
+
+
+RULES = [r_nonzero_divisor, r_driver, r_sigidx, r_rowwidth, r_outidx, r_fold, r_default_unwrap, r_generator_unreachable, r_stk, r_guard_lt, r_position_same,
          r_position_unwrap, r_func, r_bits_shift, r_step, r_capacity, r_drain_full, r_sort, r_radix, r_uninhabited,
          r_try_static, r_framedmap, r_refcell, r_gen_range, r_getrandom, r_binoptree_dummy, r_text_span, r_lex_prefix,
          r_header_lex, r_text_pos, r_loop_counter, r_kind_conversion, r_token_api]
